@@ -13,6 +13,7 @@
 EXTENDS ClusterWrite, Json
 
 CONSTANTS GenN,      \* set of owner counts to generate (subset of 1..MaxN)
+          GenCoord,  \* set of coordinator positions to generate (subset of 0..MaxN; 0 = owns no copy)
           GenHang    \* generate DirectHang steps
 
 VARIABLE hist
@@ -27,7 +28,10 @@ Turn(o) ==
 
 Log(a, o, r) == hist' = Append(hist, <<a, o, r>>)
 
-GInit == Init /\ n \in GenN /\ hist = <<>>
+\* with AllowOutOfOrderWrites the queues are never looked at: one representative (all empty) is enough
+GInit == /\ Init /\ n \in GenN /\ coord \in GenCoord
+         /\ ooo => \A o \in Own : ~qne[o]
+         /\ hist = <<>>
 
 GNext ==
   \/ \E o \in Owners : Turn(o) /\
